@@ -279,6 +279,50 @@ def run_case(case: dict) -> dict:
                 if any(not core.close(ic3[k], exp3[k]) for k in exp3):
                     viols.append(core.viol("after reading result views and re-declaring a parameter, initial conditions differ from t=0 resolution", None, parameter=tp, value=newp, got=ic3, expected=exp3, spec=spec))
                 counters["parameter re-declared after result views were read"] = 1
+        # several parameters are scaled in one call, what the assignments name before the assignment-defined parameters
+        # themselves: each entry is applied to the model as scaled so far (an assignment-defined parameter becomes its value
+        # resolved at time zero from the content at that moment, times its factor)
+        iap = [c["name"] for c in spec["components"] if c["kind"] == "parameter" and "ia" in c]
+        plain_q = [c["name"] for c in spec["components"] if c["kind"] == "parameter" and "value" in c]
+        if iap and plain_q and rng.random() < 0.6:
+            r3 = core.rng_for(case["seed"] + ":scale")
+            order = r3.sample(plain_q, r3.randint(1, len(plain_q))) + r3.sample(iap, r3.randint(1, len(iap)))
+            if r3.random() < 0.3:
+                r3.shuffle(order)
+            factors = {n: r3.choice([0.5, 2.0, 3.0]) for n in order}
+            spec_c = copy.deepcopy(spec)
+            try:
+                for n, fac in factors.items():
+                    now = rm.Ref(spec_c).parameter_values()[n]
+                    for c in spec_c["components"]:
+                        if c["kind"] == "parameter" and c["name"] == n:
+                            c.pop("ia", None)
+                            c["value"] = now * fac
+                ref_c = rm.Ref(spec_c)
+            except Exception:  # noqa: BLE001
+                ref_c = None
+            if ref_c is not None and all(np.isfinite(v) for v in ref_c.parameter_values().values()):
+                m_c = rm.build(spec)
+                m_c.get_args()
+                if r3.random() < 0.5:
+                    m_c.scale_parameters(dict(factors))
+                else:
+                    Simulator(m_c).scale_parameters(dict(factors))
+                ct.register(m_c, ref_c)
+                try:
+                    a_c = m_c.get_args()
+                    for k_, v_ in ref_c.parameter_values().items():
+                        if not core.close(a_c[k_], v_, 1e-9):
+                            viols.append(core.viol("after scaling several parameters in one call, a parameter differs from the entries applied one after the other", None,
+                                                   factors=factors, name=k_, got=float(a_c[k_]), expected=v_, spec=spec))
+                    ic_c, exp_c = dict(m_c.get_initial_conditions()), ref_c.initial_conditions()
+                    if any(not core.close(ic_c[k_], exp_c[k_]) for k_ in exp_c):
+                        viols.append(core.viol("after scaling several parameters in one call, initial conditions differ from t=0 resolution", None, factors=factors, got=ic_c, expected=exp_c, spec=spec))
+                    st_c = rm.random_state(ref_c, rng)
+                    m_c.get_args(st_c, 1.25)
+                    counters["assignment-defined parameters scaled in one call with what they name"] = 1
+                finally:
+                    ct.unregister(m_c)
         # a variable whose initial value is assigned is made static without a value: it is an assignment-defined parameter from
         # then on (resolved once at time zero, the same for every state and time), and what depends only on it and on
         # parameters is a derived parameter
